@@ -13,7 +13,8 @@ From VL Require Import Prelude.Sx Prelude.PyDict Prelude.GDict Model.GetNBest Mo
      Proofs.Convert_proofs Proofs.CopelandMono_proofs Proofs.Minimax_proofs Proofs.Condorcet_proofs Proofs.Schulze_proofs Proofs.Bucklin_proofs
      Proofs.BucklinShared_proofs.
 From VL Require Model.Hybrids Proofs.Hybrids_proofs.
-From VL Require Import Proofs.RaisesBallot_proofs.
+From VL Require Import Proofs.RaisesBallot_proofs Proofs.Scorers_proofs.
+From VL Require Gen.Rankscore.
 Import ListNotations.
 Open Scope Z_scope.
 
@@ -107,6 +108,76 @@ Proof.
   intros. split; [apply dowdall_nonincreasing|]. split; [apply modified_borda_nonincreasing|].
   intros top. apply fixed_top_nonincreasing.
 Qed.
+
+(* ... and for the remaining scorers (Proofs/Scorers_proofs.v): Borda with any base (the list is never padded: more ranks than
+   candidates is the ValueError), Geometric with base >= 1, SequenceBased with a sequence that is non-increasing and ends
+   non-negative ([noninc0]: the list is padded with zeros, so a negative last score would be followed by a larger one) *)
+Theorem C17_scorers_nonincreasing_all : forall n_cands k s_pre a b s_post,
+  (forall base, rank_scores (Borda base) n_cands k = Some (s_pre ++ a :: b :: s_post) -> (b <= a)%Q) /\
+  (forall base, 1 <= base -> rank_scores (Geometric base) n_cands k = Some (s_pre ++ a :: b :: s_post) -> (b <= a)%Q) /\
+  (forall sq, noninc0 sq = true -> rank_scores (SequenceBased sq) n_cands k = Some (s_pre ++ a :: b :: s_post) -> (b <= a)%Q).
+Proof.
+  intros. split; [intros base; apply borda_nonincreasing|]. split; [intros base; apply geometric_nonincreasing|].
+  intros sq. apply sequence_nonincreasing.
+Qed.
+
+(* one decidable condition on the scorer object: every scorer satisfying it is non-increasing along every ballot *)
+Definition scorer_ok (s : Convert.scorer) : bool :=
+  match s with Geometric base => 1 <=? base | SequenceBased sq => noninc0 sq | _ => true end.
+
+Theorem C17_scorer_ok : forall s n_cands, scorer_ok s = true -> scorer_nonincreasing s n_cands.
+Proof.
+  intros s n_cands H k s_pre a b s_post. destruct s; cbn [scorer_ok] in H.
+  - apply borda_nonincreasing.
+  - apply dowdall_nonincreasing.
+  - apply geometric_nonincreasing. apply Z.leb_le, H.
+  - apply modified_borda_nonincreasing.
+  - apply fixed_top_nonincreasing.
+  - apply sequence_nonincreasing, H.
+Qed.
+
+(* the same inequalities on the per-rank score expressions GENERATED from votelib/component/rankscore.py (Gen/Rankscore.v; tied to
+   [rank_scores] by Props/GenTie_Rankscore.v): score(rank + 1) <= score(rank) for every rank >= 0 *)
+Theorem C17_gen_scorers_nonincreasing : forall (n r : Z), 0 <= r ->
+  (Gen.Rankscore.Dowdall_score n (r + 1) <= Gen.Rankscore.Dowdall_score n r)%Q /\
+  (forall base : Z, (1 <= base)%Z -> Gen.Rankscore.Geometric_score base n (r + 1) <= Gen.Rankscore.Geometric_score base n r)%Q /\
+  (Gen.Rankscore.ModifiedBorda_score n (r + 1) <= Gen.Rankscore.ModifiedBorda_score n r)%Q /\
+  (forall top : Z, Gen.Rankscore.FixedTop_score top n (r + 1) <= Gen.Rankscore.FixedTop_score top n r)%Q.
+Proof.
+  intros n r Hr. split; [apply gen_dowdall_nonincreasing, Hr|]. split; [intros base Hb; apply gen_geometric_nonincreasing; assumption|].
+  split; [apply gen_modified_borda_nonincreasing|intros top; apply gen_fixed_top_nonincreasing].
+Qed.
+
+(* positional rules, the winner moves up past ANY number of places on a ballot of plain ranks, any scorer with [scorer_ok]
+   (the ballot is not longer than the number of candidates: [rank_scores] answers) *)
+Theorem C17_positional_any : forall (s : Convert.scorer) (n_cands : nat) pre_b post_b (l1 l2 l3 : list C) (w : C) (wgt : Q) (sc : list Q),
+  (0 <= wgt)%Q -> ~ In w l2 -> scorer_ok s = true ->
+  rank_scores s n_cands (length l1 + length l2 + S (length l3)) = Some sc ->
+  get_n_best Qle_bool (dconv (pos_img s n_cands) (pre_b ++ (plain_ballot (l1 ++ l2 ++ w :: l3), wgt) :: post_b)) 1 = [Cand (kc w)] ->
+  get_n_best Qle_bool (dconv (pos_img s n_cands) (pre_b ++ (plain_ballot (l1 ++ w :: l2 ++ l3), wgt) :: post_b)) 1 = [Cand (kc w)].
+Proof.
+  intros s n_cands pre_b post_b l1 l2 l3 w wgt sc Hw Hnin Hok Hsc.
+  exact (positional_move_up s n_cands pre_b post_b l1 l2 w wgt sc Hw Hnin (C17_scorer_ok s n_cands Hok) l3 Hsc).
+Qed.
+
+(* the conditions are needed: Geometric(-2) gives 1, -1/2, 1/4; SequenceBased([1, -1]) gives 1, -1, 0 (padding); and with the
+   increasing sequence [0, 1] the sole winner B of {(A,B): 1} loses to A when it moves up to (B,A) *)
+Theorem C17_scorers_conditions_needed :
+  rank_scores (Geometric (-2)) 3 3 = Some ([1] ++ (- (1 # 2)) :: (1 # 4) :: [])%Q /\
+  rank_scores (SequenceBased [1; -(1)]%Q) 3 3 = Some ([1] ++ (-(1)) :: 0 :: [])%Q /\
+  get_n_best Qle_bool (dconv (pos_img (SequenceBased [0; 1]%Q) 2) ([] ++ (plain_ballot ([] ++ [1%positive] ++ 2%positive :: []), 1%Q) :: [])) 1 = [Cand (kc 2%positive)] /\
+  get_n_best Qle_bool (dconv (pos_img (SequenceBased [0; 1]%Q) 2) ([] ++ (plain_ballot ([] ++ 2%positive :: [1%positive] ++ []), 1%Q) :: [])) 1 = [Cand (kc 1%positive)].
+Proof. vm_compute. repeat split; reflexivity. Qed.
+
+(* non-vacuity: Borda, Geometric(2) and the sequence 5,3,3,1 satisfy the condition, [1, -1] and Geometric(-2) do not; 4 candidates,
+   {(B,A,C,D): 2, (D,C,B): 1} under Borda: B = 2 is the sole winner and moves from the third to the first place of the second ballot *)
+Example C17_positional_example :
+  scorer_ok (Borda 1) = true /\ scorer_ok (Geometric 2) = true /\ scorer_ok (SequenceBased [5; 3; 3; 1]%Q) = true /\
+  scorer_ok (SequenceBased [1; -(1)]%Q) = false /\ scorer_ok (Geometric (-2)) = false /\
+  let pre_b := [(plain_ballot [2; 1; 3; 4]%positive, 2%Q)] in
+  get_n_best Qle_bool (dconv (pos_img (Borda 1) 4) (pre_b ++ (plain_ballot ([] ++ [4; 3]%positive ++ 2%positive :: []), 1%Q) :: [])) 1 = [Cand (kc 2%positive)] /\
+  get_n_best Qle_bool (dconv (pos_img (Borda 1) 4) (pre_b ++ (plain_ballot ([] ++ 2%positive :: [4; 3]%positive ++ []), 1%Q) :: [])) 1 = [Cand (kc 2%positive)].
+Proof. vm_compute. repeat split; reflexivity. Qed.
 
 (* Copeland: if the pairwise counts change only in favour of w ([raises v v' w], Proofs/CopelandMono_proofs.v:
    same candidates, w's counts against the others do not drop, theirs against w do not rise, contests among the
@@ -516,3 +587,8 @@ Print Assumptions C17_copeland_s.
 Print Assumptions C17_minimax_s.
 Print Assumptions C17_copeland_ballots.
 Print Assumptions C17_minimax_ballots.
+Print Assumptions C17_scorers_nonincreasing_all.
+Print Assumptions C17_scorer_ok.
+Print Assumptions C17_gen_scorers_nonincreasing.
+Print Assumptions C17_positional_any.
+Print Assumptions C17_scorers_conditions_needed.
